@@ -218,6 +218,19 @@ def failing_cook(kind):
         sdl = SDL
     elif kind == "syntax":
         sdl = "type Query { a: Int"
+    elif kind == "directive-with-sync-hook":
+        from tartiflette import Directive
+
+        @Directive("shout", schema_name=name)
+        class Shout:
+            def on_field_execution(self, directive_args, next_resolver, parent, args, ctx, info):  # not a coroutine function: refused
+                return None
+        sdl = "directive @first on FIELD_DEFINITION directive @shout on FIELD_DEFINITION type Query { a: Int @shout }"
+
+        @Directive("first", schema_name=name)
+        class First:
+            async def on_field_execution(self, directive_args, next_resolver, parent, args, ctx, info):
+                return await next_resolver(parent, args, ctx, info)
     else:  # scalar without implementation
         sdl = "scalar Unimplemented type Query { a: Unimplemented }"
     try:
@@ -299,14 +312,14 @@ def granular_orders():
         yield seq
 
 
-BAD_KINDS = ["resolver-for-missing-field", "syntax", "scalar-without-implementation"]
+BAD_KINDS = ["resolver-for-missing-field", "syntax", "scalar-without-implementation", "directive-with-sync-hook"]
 
 
 def with_failed_cook(n):
     """every order of n bundles with one failing cook of another schema name inserted at every position"""
     for h in orders(n):
         for pos in range(len(h) + 1):
-            for kind in (BAD_KINDS if n == 2 else BAD_KINDS[:1]):
+            for kind in (BAD_KINDS if n == 2 else (BAD_KINDS[0], BAD_KINDS[3])):
                 yield h[:pos] + [("badcook", kind)] + h[pos:]
 
 
